@@ -31,6 +31,7 @@ import multiprocessing
 VERIF_DIR = os.path.dirname(os.path.dirname(os.path.abspath(__file__)))
 REPO = os.path.realpath(os.environ.get("VERIF_REPO", "/repo"))
 NPROC = int(os.environ.get("VERIF_JOBS", "16"))
+SLOW_S = float(os.environ.get("VERIF_SLOW", "0"))
 
 
 class Violation(Exception):
@@ -193,8 +194,11 @@ class Stats:
 
 def execute(sub, case, prop):
     """Run one case; returns Outcome or raises Violation / other (harness)."""
+    t0 = time.time()
     try:
         out = sub.run_case(case)
+        if SLOW_S and time.time() - t0 > SLOW_S:
+            sys.stderr.write("SLOW {:.1f}s [{}] {}\n".format(time.time() - t0, sub.name, canonical(case)[:600]))
     except Violation as v:
         k = is_known(prop, sub.name, v.signature)
         if k is not None:
@@ -341,6 +345,18 @@ def run_replay_file(mod, path):
 
 
 def main_for(modname, argv=None):
+    """Entry point: never lets a harness exception look like a violation (exit 2, not 1)."""
+    try:
+        return _main_for(modname, argv)
+    except SystemExit:
+        raise
+    except BaseException:      # noqa
+        traceback.print_exc()
+        print("HARNESS-ERROR in {}".format(modname))
+        return 2
+
+
+def _main_for(modname, argv=None):
     import argparse
     import importlib
     ap = argparse.ArgumentParser()
